@@ -25,9 +25,9 @@ inductive SendsOnly (P : K → Prop) : LExpr N K → Prop
 
 def KeysOK (P : K → Prop) (l : List (Found K)) : Prop := ∀ f ∈ l, P f.user ∧ ∀ k ∈ f.excluded, P k
 
-theorem mem_flipList {st : Status} {u : K} {f : Found K}
+theorem mem_flipList {st st' : Status} {u : K} {f : Found K}
     (h : f ∈ (if st = .has then [({ user := u, status := .no } : Found K)] else []) ++
-             (if st = .no then [({ user := u, status := .has } : Found K)] else [])) :
+             (if st = .no then [({ user := u, status := st' } : Found K)] else [])) :
     f.user = u ∧ f.excluded = [] := by
   cases st <;> simp at h <;> subst h <;> exact ⟨rfl, rfl⟩
 
